@@ -1016,6 +1016,12 @@ func headEnd(b []byte) int64 {
 }
 
 func prefixOfHist(disk []Logical, hist []Logical) bool {
+	ok, _ := matchHist(disk, hist)
+	return ok
+}
+
+// matchHist: ok plus the number of history records found on disk
+func matchHist(disk []Logical, hist []Logical) (bool, int) {
 	// disk (without head copies of the state written by cut) must equal hist, or a prefix of it when the
 	// last save is still buffered
 	i := 0
@@ -1030,9 +1036,9 @@ func prefixOfHist(disk []Logical, hist []Logical) bool {
 		if d.Kind == "snap" && d.Index == 0 { // the snapshot{0,0} of Create
 			continue
 		}
-		return false
+		return false, i
 	}
-	return true
+	return true, i
 }
 
 func layoutMatches(sc *Scenario, wr *WriteResult) bool {
